@@ -48,6 +48,8 @@ def _cases(tier):
             items.append((g, (2,)))
         for g in enum_O(4, max_edges=4):
             items.append((g, "wy"))
+        for g in enum_O(4, max_edges=5):
+            items.append((g, (0,)))  # no source domain: lines 8-10 on four-node graphs
     else:
         for n in (2, 3):
             for g in enum_L(n):
@@ -72,7 +74,7 @@ def describe(tier):
         "bound": (
             "O(2), O(3) name-ordered ADMGs with K<=1 source domains (all 19 (Z,W) specs per domain at n=3); "
             "O(3, <=3 edges) with K=2 (all ordered pairs of specs); O(4, <=4 edges) with one source domain whose surrogate "
-            "outcomes are the target outcomes and whose experiment is a single node"
+            "outcomes are the target outcomes and whose experiment is a single node; O(4, <=5 edges) with no source domain"
             if tier == "quick"
             else "L(2), L(3) all labelled ADMGs with K<=2 (all ordered pairs of domain specs); O(4, <=4 edges) with K<=1"
         )
@@ -96,6 +98,17 @@ def ref_transport_marks(g: G, z, w):
     return (set(descendants_inc(g, z)) - set(w)) | (comp - set(anc))
 
 
+ARG_SETS = {}
+
+
+def arg_set(names):
+    """One set object per node tuple, reused for every call of this process (a caller may well pass the same set twice)."""
+    k = tuple(names)
+    if k not in ARG_SETS:
+        ARG_SETS[k] = {V(n) for n in names}
+    return ARG_SETS[k]
+
+
 def check_case(res: Res, g: G, yg, x, y, doms, models_star, case):
     from y0.algorithm.transport import identify_target_outcomes, surrogate_to_transport
     from y0.dsl import Expression, Variable
@@ -106,11 +119,17 @@ def check_case(res: Res, g: G, yg, x, y, doms, models_star, case):
     so = {p: {V(n) for n in w} for p, (z, w) in zip(pops, doms)}
     si = {p: {V(n) for n in z} for p, (z, w) in zip(pops, doms)}
     before = snapshot(yg)
+    xs, ys = arg_set(x), arg_set(y)
+    if {str(v) for v in xs} != set(x) or {str(v) for v in ys} != set(y):
+        # an earlier call of this process changed the caller's set: already reported then; restore and go on
+        ARG_SETS.pop(tuple(x), None)
+        ARG_SETS.pop(tuple(y), None)
+        xs, ys = arg_set(x), arg_set(y)
     try:
         est = identify_target_outcomes(
             yg,
-            target_outcomes={V(n) for n in y},
-            target_interventions={V(n) for n in x},
+            target_outcomes=ys,
+            target_interventions=xs,
             surrogate_outcomes=so,
             surrogate_interventions=si,
         )
@@ -120,6 +139,17 @@ def check_case(res: Res, g: G, yg, x, y, doms, models_star, case):
         return
     if snapshot(yg) != before:
         res.violation("side_effect", case, "identify_target_outcomes modified the caller's graph")
+    if (
+        {str(v) for v in xs} != set(x)
+        or {str(v) for v in ys} != set(y)
+        or any({str(v) for v in so[p]} != set(w) or {str(v) for v in si[p]} != set(z) for p, (z, w) in zip(pops, doms))
+    ):
+        res.violation(
+            "side_effect",
+            case,
+            "identify_target_outcomes modified the query sets it was given (the same set object then denotes another "
+            f"query in the caller's next call): X is now {sorted(map(str, xs))}, Y {sorted(map(str, ys))}",
+        )
     if est is not None and not isinstance(est, Expression):
         res.violation("total", case, f"returned a {type(est).__name__}")
         return
